@@ -33,6 +33,7 @@ type c04 struct {
 	pre      seqx.Pre
 	nEstBy   [NPeers]int
 	noPDR    map[uint64]bool // live sessions (by UP SEID) whose only PDR has been removed
+	merged   bool            // a session was taken over onto the id of another associated node (terminal)
 }
 
 func c04Spec(tier, scenario string) seqx.Spec {
@@ -71,6 +72,11 @@ func (c *c04) seidClasses() []uint64 {
 
 func (c *c04) Enabled() []seqx.Event {
 	var ev []seqx.Event
+	if c.merged {
+		// what re-association and establishment mean once two associations share a node id is not settled by the
+		// property: the takeover step itself was judged, the history is not continued
+		return nil
+	}
 	for p := 0; p < 2; p++ {
 		ev = append(ev, seqx.Ev("Assoc", int64(p)))
 	}
@@ -95,6 +101,15 @@ func (c *c04) Enabled() []seqx.Event {
 	for k := 1; k <= len(c.EstUP); k++ {
 		if c.Holder(k) && c.R.Live[c.SeidOf(k)] != nil && len(c.R.Tx) < 2 {
 			ev = append(ev, seqx.Ev("Report", int64(k)))
+		}
+	}
+	// SMF-set takeover of a session onto the node id of the OTHER associated peer (a Modification carrying that
+	// Node ID): it is addressed to one SEID and must leave every other SEID's session alone (terminal step)
+	for k := 1; k <= len(c.EstUP); k++ {
+		if x := c.R.Live[c.SeidOf(k)]; c.Holder(k) && x != nil {
+			if _, ok := c.R.Nodes[c.W.PeerIP(1-x.Peer)]; ok && x.Peer < 2 {
+				ev = append(ev, seqx.Ev("TakeoverX", int64(k)))
+			}
 		}
 	}
 	// a session may lose its last PDR before it ends: its other rules must still go when it is released
@@ -231,6 +246,20 @@ func (c *c04) Apply(e seqx.Event) seqx.StepResult {
 			j.Tag("del-nonlive")
 			c.notFound(j, "Del", s, ms[0], sd0, dp0, o)
 		}
+	case "TakeoverX":
+		s := c.SeidOf(int(e.A[0]))
+		x := c.R.Live[s]
+		others0 := c.W.D.DumpOf(s, true)
+		o = c.W.Send(x.Peer, smf.Mod(c.NextSeq(x.Peer), s, c.W.PeerIP(1-x.Peer)))
+		if j.Crashed(c.W, o) {
+			break
+		}
+		j.OnlyTo(o, x.Peer, "TakeoverX")
+		if c.W.D.DumpOf(s, true) != others0 {
+			j.Fail("mod-touches-others", "the takeover of session %#x onto the other peer's node id changed rules of other sessions", s)
+		}
+		c.merged = true
+		j.Tag("takeover-onto-associated-id")
 	case "RmPDR":
 		s := c.SeidOf(int(e.A[0]))
 		x := c.R.Live[s]
